@@ -29,7 +29,8 @@ func init() {
 	register("C19", func(cfg *Config) *Report { return runProgs(cfg, "C19") })
 }
 
-var listElems = []*ast.SExpr{ast.NewSymbol("a"), ast.NewSymbol("b"), ast.NewInt(1)}
+// list elements; the last three look like earlier ones in print but are atoms of another kind (a string, a symbol, a float)
+var listElems = []*ast.SExpr{ast.NewSymbol("a"), ast.NewSymbol("b"), ast.NewInt(1), ast.NewString("a"), ast.NewSymbol("1"), ast.NewFloat(1)}
 
 // modeArg generates an argument that is ground, partial or unbound; unbound positions are query variables.
 func listArg(r *rand.Rand, nq int) *PT {
